@@ -26,7 +26,7 @@ import sys
 from opsim import seams
 from opsim.core import SimBudget, HarnessError, derive
 from opsim.sched import SeqTracer, Sched
-from opsim.util import call, weighted
+from opsim.util import call, weighted, quiet
 
 from operon_ai.core.types import Capability
 from operon_ai.organelles.mitochondria import Mitochondria, MetabolicPathway, SimpleTool
@@ -511,7 +511,7 @@ class _World:
         ctor_tools = [self.tool_object(spec) for spec in pre]
         return call(Mitochondria, max_ros=self.cfg["max_ros"], tools=ctor_tools,
                     allowed_capabilities=None if self.cfg["allowed"] is None else set(_dec(self.cfg["allowed"])),
-                    silent=True, tracer=tr)
+                    silent=quiet(), tracer=tr)
 
 
 def run(plan, k):
